@@ -96,17 +96,19 @@ def extraction_build():
     return exe
 
 
-def capture_tool(sm=False):
+def capture_tool(sm=False, release=False):
     src = os.path.join(VERIF, 'tools', 'capture')
     tdir = cache_dir('target-capture' + ('-sm' if sm else ''))
     shutil.copy(os.path.join(REPO, 'Cargo.lock'), os.path.join(src, 'Cargo.lock'))
     cmd = ['cargo', 'build', '--offline', '--target-dir', tdir]
+    if release:
+        cmd += ['--release']        # logos-codegen without debug assertions / overflow checks
     if sm:
         cmd += ['--features', 'state_machine_codegen']
     r = sh(cmd, cwd=src, check=False)
     if r.returncode != 0:
         raise BuildError('capture tool does not build against /repo:\n' + r.stdout[-3000:])
-    return os.path.join(tdir, 'debug', 'verif-capture')
+    return os.path.join(tdir, 'release' if release else 'debug', 'verif-capture')
 
 
 class BuildError(Exception):
